@@ -2,7 +2,7 @@
 import ast
 
 from ..loader import AnalysisError, attr_path, src, walk_no_nested_defs, norm_stmt, call_name
-from ..symx import SymX, classify, show, C, TRUE, FALSE, simp, is_const, mk_add, mk_mul, negate, strip_perm
+from ..symx import SymX, classify, show, C, TRUE, FALSE, simp, is_const, mk_add, mk_mul, negate, strip_perm, mentions
 from ..nf import SELF_NEXT, SF
 from . import kernels as K
 from . import C01, C03, shared
@@ -209,6 +209,10 @@ def r3_sweep(ctx, chk, rule="C02.3"):
     news = [simp(("idx", call, C(i))) for i in range(3)]
     diffs = [simp(("call", "abs", (mk_add(news[i], negate(("attr", st, fields[i]))),), ())) for i in range(3)]
     want = simp(("call", "max", tuple(diffs), ()))
+    if fo.term != want and mentions(fo.term, lambda x: x[0] in ("compr", "apply", "res") or (x[0] == "call" and x[1] not in ("abs", "max", "min"))
+                                    or (x[0] == "mcall" and x[2] != "value_iteration_rewards")):
+        chk.undecided(rule, where, "the per-state change `%s` is computed through a construct that is not resolved to the three |new - old| terms" % show(fo.term))
+        return
     if fo.term != want:
         # which of the three is missing?
         missing = [fields[i] for i in range(3) if not _mentions(fo.term, diffs[i])]
@@ -373,6 +377,7 @@ def run(ctx, chk):
     C03.r1(ctx, chk, "C02.pre:C03.1")
     C03.r23(ctx, chk, "C02.pre:C03.2", "C02.pre:C03.3")
     C03.r5_dispatch(ctx, chk, "C02.pre:C03.5")
+    C03.r4_player_two(ctx, chk, "C02.pre:C03.4")     # clearing of cut-off states must spare everything still reachable
     chk.require_instances("C02.1", 8)
     chk.require_instances("C02.2", 6)
     chk.require_instances("C02.3", 4)
